@@ -673,6 +673,11 @@ class RingAlg(Alg):
     for v in vs[:-1]:
       rhs = self._sub(rhs, self._mul_raw(v, v))
     self.rel[i] = rhs
+    # a consequence of the relation itself: not all components vanish (decides `all(v == 0)` / `any(v != 0)` guards on unit vectors)
+    try:
+      self.hint_or([(v, 'ne', 0) for v in vs], True, 'a unit vector has a non-zero component (from the declared relation sum v^2 = 1)')
+    except Exception:      # noqa: BLE001
+      pass
 
   def relation(self, lead_var, rhs):
     (m, c), = lead_var.t.items()
@@ -967,6 +972,23 @@ class RingAlg(Alg):
       return h[0]
     # composite predicates: decided from the truth of their parts (each part needs its own hint)
     if rb.op == 'and':
+      # De Morgan: and_i (a_i op_i 0) is false when the hinted disjunction or_i not(a_i op_i 0) is true
+      leaves, stack, ok = [], list(rb.kids), True
+      while stack:
+        k = stack.pop()
+        if k.op == 'and':
+          stack.extend(k.kids)
+        elif isinstance(k.key, tuple) and k.key and k.key[0] == 'cmp':
+          leaves.append(k.key)
+        else:
+          ok = False
+          break
+      if ok and leaves:
+        neg = {'lt': 'ge', 'ge': 'lt', 'le': 'gt', 'gt': 'le', 'eq': 'ne', 'ne': 'eq'}
+        h = self.cmp_hints.get(('or', frozenset(('cmp', kk[1], neg[kk[2]]) for kk in leaves)))
+        if h is not None:
+          self.hints_used.append((rb.text[:80], not h[0], h[1]))
+          return not h[0]
       return all(self.truth(k) for k in rb.kids)
     if rb.op == 'not':
       return not self.truth(rb.kids[0])
